@@ -11,8 +11,8 @@ SHAPES = {"chain": "Chain", "star": "Star", "two": "Two"}
 CLAUSES = {
     "C01": {"signature", "issuerDnBytes", "aki", "ski"},
     "C10": {"changedFiles", "otherFiles", "rerun"},
-    "C11": {"planSet", "issuersFirst", "changeType"},
-    "C12": {"converged", "transition", "type", "refused", "defaultRunFails"},
+    "C11": {"planSet", "issuersFirst", "changeType", "writeOrder"},
+    "C12": {"converged", "transition", "type", "refused", "defaultRunFails", "writeOrder"},
     "C13": {"hashFunction"},
     "C14": {"keyReplaced", "certKeyMismatch", "requestNotKept"},
     "C15": {"transition", "type", "refused", "errorNotReported", "converged", "defaultRunFails", "rerun"},
